@@ -243,7 +243,8 @@ Definition lenG (fixed : bool) (n cap : nat) : bool := if fixed then Nat.eqb n c
 Definition chkG (q : bool) (e : etype) (l : list pyval) : res pyval :=
   if q || forallb (elem_in_dsdl_range e) l then Ok (PArr (dtype_of PW e) l) else Raise ValueError.
 Definition slowG (q fixed : bool) (cap : nat) (e : etype) (y : pyval) : res pyval :=
-  l <- np_array (dtype_of PW e) y ;; if lenG fixed (length l) cap then chkG q e l else Raise ValueError.
+  l <- np_array (dtype_of PW e) y ;;
+  if lenG fixed (length l) cap then (if float_src_ok TG q e y then chkG q e l else Raise ValueError) else Raise ValueError.
 Definition fast_bytesG (e : etype) : bool := match e with EPrim (KU w) => w <=? 8 | _ => false end.
 Definition strconv (sl : bool) (x : pyval) : pyval :=
   if sl then match x with PStr s => PBytes (utf8_encode s) | _ => x end else x.
@@ -331,6 +332,7 @@ Proof.
   destruct (np_flat y) as [shl|] eqn:N; cbn [bind] in H; [|discriminate].
   destruct (mapM (conv_leaf (dtype_of PW e)) (snd shl)) as [l|] eqn:M; cbn [bind] in H; [|discriminate].
   destruct (lenG fixed (length l) cap) eqn:L; [|discriminate].
+  destruct (float_src_ok TG q e y); [|discriminate].
   apply mapM_Forall2 in M. destruct (conv_all _ _ _ _ _ M (np_flat_wf _ _ _ _ N W)) as (_ & F & W').
   exact (chkG_ok _ _ _ _ _ _ _ _ _ S L F W' H).
 Qed.
@@ -400,7 +402,8 @@ Proof. intros q e l v. unfold chkG. destruct (q || forallb (elem_in_dsdl_range e
 Lemma slowG_not_none : forall q fixed cap e y v, slowG q fixed cap e y = Ok v -> is_none v = false.
 Proof.
   intros q fixed cap e y v. unfold slowG. destruct (np_array (dtype_of PW e) y) as [l|]; cbn [bind]; [|discriminate].
-  destruct (lenG fixed (length l) cap); [apply chkG_not_none|discriminate].
+  destruct (lenG fixed (length l) cap); [|discriminate].
+  destruct (float_src_ok TG q e y); [apply chkG_not_none|discriminate].
 Qed.
 
 Lemma field_value_not_none : forall q f x v, field_value TG PW q f x = Ok v -> is_none v = false.
@@ -832,6 +835,16 @@ Proof.
   cbn [map mapM conv_leaf py_int bind]. rewrite Hz, IH. reflexivity.
 Qed.
 
+(* the float check of the conformant variant only concerns float16/float32 element types *)
+Lemma float_src_ok_other : forall q e y, match e with EPrim (KF w) => 64 <= w | _ => True end ->
+  float_src_ok TG q e y = true.
+Proof.
+  intros q e y He. unfold float_src_ok. destruct q; [reflexivity|]. cbn [orb].
+  destruct (np_flat y) as [sl|]; [|reflexivity]. apply forallb_forall. intros x _.
+  destruct e as [[|w|w|w]|t]; cbn [float_leaf_ok]; try reflexivity.
+  change (t_float_check_below TG) with 64. destruct (w <? 64) eqn:E; [lia|reflexivity].
+Qed.
+
 Theorem array_length_exact : forall q fixed cap sl w zs, 1 <= w <= 64 -> Forall (fun z => urange w z = true) zs ->
   assign_array TG PW q fixed cap sl (EPrim (KU w)) (PList (map PInt zs)) =
   if (if fixed then Nat.eqb (length zs) cap else Nat.leb (length zs) cap)
@@ -843,6 +856,7 @@ Proof.
   rewrite mapM_conv_ints by (eapply Forall_impl; [|exact Hz]; intros; apply urange_pwd; auto).
   cbn [bind]. rewrite map_length. unfold lenG.
   destruct (if fixed then Nat.eqb (length zs) cap else Nat.leb (length zs) cap); [|reflexivity].
+  rewrite float_src_ok_other by exact I.
   unfold chkG.
   assert (forallb (elem_in_dsdl_range (EPrim (KU w))) (map PInt zs) = true) as ->.
   { apply forallb_forall. intros y Hy. apply in_map_iff in Hy. destruct Hy as (z & <- & Hin).
@@ -870,6 +884,16 @@ Qed.
 Theorem float_array_elem_unchecked :
   assign_array TG PW true false 2 false (EPrim (KF 16)) (PList [PFloat 4696837146684686336])
   = Ok (PArr (DF 16) [PFloat 9218868437227405312]).
+Proof. vm_compute. reflexivity. Qed.
+
+(* the conformant variant applies the scalar rule to every element: 1e6 is rejected, 65504.0 and +inf pass *)
+Theorem float_array_elem_checked_noquirk :
+  assign_array TG PW false false 2 false (EPrim (KF 16)) (PList [PFloat 4696837146684686336]) = Raise ValueError.
+Proof. vm_compute. reflexivity. Qed.
+
+Theorem float_array_elem_boundary_noquirk :
+  assign_array TG PW false false 2 false (EPrim (KF 16)) (PList [PFloat 4679235614791434240; PFloat 9218868437227405312])
+  = Ok (PArr (DF 16) [PFloat 4679235614791434240; PFloat 9218868437227405312]).
 Proof. vm_compute. reflexivity. Qed.
 
 Theorem float_scalar_checked : set_prim TG (KF 16) (PFloat 4696837146684686336) = Raise ValueError.
@@ -1307,6 +1331,17 @@ Proof. intros db tid ops Wdb. apply run_ok; auto. right; left; reflexivity. Qed.
 Theorem obj_invariant_partial : forall db tid ops, db_wok db = true -> db_std_elems PW db = true ->
   wfv PW db true (run TG PW true db tid ops) = true.
 Proof. intros db tid ops Wdb Hs. apply run_ok; auto. right; right; exact Hs. Qed.
+
+(* the tree that was scanned: whatever the generated quirk flag is, the full contract holds when the flag is off or
+   no integer array has a non-standard element width *)
+Theorem obj_invariant_live : forall db tid ops, db_wok db = true ->
+  (arrelem_quirk_gen = false \/ db_std_elems PW db = true) ->
+  wfv PW db true (run TG PW arrelem_quirk_gen db tid ops) = true.
+Proof.
+  intros db tid ops Wdb H. destruct arrelem_quirk_gen eqn:Q.
+  - destruct H as [H|H]; [discriminate|]. apply obj_invariant_partial; auto.
+  - apply obj_invariant_strict_noquirk; auto.
+Qed.
 
 (* ... and db_wok cannot be dropped: the default instance of these types already violates the contract *)
 Theorem obj_invariant_needs_wok : forall q,
